@@ -27,6 +27,7 @@ macro_rules! dispatch {
             "C03" => $f(&props::place::C03, $($arg),*),
             "C04" => $f(&props::c04::C04, $($arg),*),
             "C05" => $f(&props::cli::C05, $($arg),*),
+            "C12" => $f(&props::c12::C12, $($arg),*),
             "C13" => $f(&props::cli::C13, $($arg),*),
             "C16" => $f(&props::cli3::C16, $($arg),*),
             "C17" => $f(&props::cli3::C17, $($arg),*),
